@@ -1263,6 +1263,9 @@ func c18Run(ctx *Ctx, t *tape.Tape) *report.Violation {
 			if j := strings.Index(name, " file#"); j >= 0 {
 				name = name[:j]
 			}
+			if j := strings.Index(name, " (first "); j >= 0 {
+				name = name[:j]
+			}
 			if j := strings.Index(name, "vec.Rasterizer"); j >= 0 {
 				name = name[:j+len("vec.Rasterizer")]
 			}
